@@ -253,6 +253,63 @@ pub fn scen_optimise(m: &Model, setup: &Setup, spec: &OptSpec, stop_at: Option<u
     };
     let obj = built.vars.view(&spec.objective);
     let dir = if spec.maximise { OptimisationDirection::Maximise } else { OptimisationDirection::Minimise };
+    // On a third of the uninterrupted cases the solver has been used before the optimisation which is
+    // judged: an assumption solve (nothing of it may be retained), or a complete linear UNSAT-SAT
+    // optimisation of some variable (it only leaves valid bounds of that variable behind). Both leave
+    // the model as it is, so the answer must be the optimum of the model. Derived from a separate
+    // generator so that the rest of the case is unchanged.
+    let mut wr = Rng::new(setup.style_seed ^ 0x3A21);
+    if stop_at.is_none() && !m.vars.is_empty() {
+        match wr.below(6) {
+            0 => {
+                let n = 1 + wr.usize(2);
+                let atoms: Vec<Atom> = (0..n)
+                    .map(|_| {
+                        let x = wr.usize(m.vars.len());
+                        let vals = &m.vars[x].values;
+                        let v = vals[wr.usize(vals.len())];
+                        match wr.below(4) {
+                            0 => Atom::Ge(x, v),
+                            1 => Atom::Le(x, v),
+                            2 => Atom::Ne(x, v),
+                            _ => Atom::Eq(x, v),
+                        }
+                    })
+                    .collect();
+                let preds: Vec<Predicate> = atoms.iter().map(|a| built.vars.pred(a)).collect();
+                let mut t0 = StopAt::never();
+                let r = built.solver.satisfy_under_assumptions(&mut brancher, &mut t0, &preds);
+                out.meta(format!(
+                    "warm-up assume {} -> {}",
+                    fmt_atoms(&atoms),
+                    match r {
+                        SatisfactionResultUnderAssumptions::Satisfiable(_) => "sat",
+                        SatisfactionResultUnderAssumptions::UnsatisfiableUnderAssumptions(_) => "unsat-under",
+                        SatisfactionResultUnderAssumptions::Unsatisfiable => "unsat",
+                        SatisfactionResultUnderAssumptions::Unknown => "unknown",
+                    }
+                ));
+            }
+            1 => {
+                let x = wr.usize(m.vars.len());
+                let wdir = if wr.chance(1, 2) { OptimisationDirection::Maximise } else { OptimisationDirection::Minimise };
+                let wobj = built.vars.view(&View::of(x));
+                let mut t0 = StopAt::never();
+                let r = built.solver.optimise(&mut brancher, &mut t0, LinearUnsatSat::new(wdir, wobj, |_: &Solver, _: SolutionReference<'_>, _: &BoxB| {}));
+                out.meta(format!(
+                    "warm-up lus var={} -> {}",
+                    x,
+                    match r {
+                        OptimisationResult::Optimal(_) => "optimal",
+                        OptimisationResult::Satisfiable(_) => "satisfiable",
+                        OptimisationResult::Unsatisfiable => "unsat",
+                        OptimisationResult::Unknown => "unknown",
+                    }
+                ));
+            }
+            _ => {}
+        }
+    }
     let seen: RefCell<Vec<Option<Vec<i32>>>> = RefCell::new(vec![]);
     let vars = &built.vars;
     let callback = |_: &Solver, sol: SolutionReference<'_>, _: &BoxB| {
